@@ -26,7 +26,7 @@ ASSUMPTIONS = ['domain as stated by the property: rectangular tables, unique key
 KINDS = ['melt-recast', 'recast-direct', 'melt', 'transpose', 'flatten', 'unflatten-period', 'pivot', 'unpack', 'unpackdict', 'capture', 'split', 'splitdown',
          'dicts-roundtrip', 'columns-roundtrip']
 REQUIRED = (['views-read-twice', 'regex-flags', 'unpackdict:keys-from-a-sample-shorter-than-the-table'] + ['kind:' + k for k in KINDS] + ['none-key', 'compound-key', 'key-not-leading', 'one-column', 'period=1', 'period=width',
-            'pivot-missing-pair', 'field-by-index', 'include-original', 'explicit-variables-permuted', 'fromdicts-sample<nrows'])
+            'pivot-missing-pair', 'field-by-index', 'include-original', 'explicit-variables-permuted', 'fromdicts-sample<nrows', 'fromdicts-generator:lagging-iterator'])
 VALS = [None, 0, 1, 2.5, 'a', 'b', '', b'x', (1, 2), gen.D(2020, 1, 1), True]
 KEYS = [None, 1, 2, 3, 'a', 'b', b'a', (1, 2), 2.5, gen.D(2020, 1, 1)]
 NAMES = ['alpha', 'beta', 'gamma', 'delta', 'eps']
@@ -422,6 +422,36 @@ def judge(case, ctx):
                 if d:
                     return d
         ctx.seen('fromdicts-sample<nrows')
+        # a generator of dicts read by two iterators, one lagging behind the other by `lag` rows (the view spills what the
+        # leader pulled; the laggard reads it back while the leader keeps pulling), then a fresh pass
+        exp = util.crows([tuple(hdr)] + rows)
+        for lag in (1, 2, 3):
+            for hdr_arg in (None, list(hdr)):
+                kw = {'header': hdr_arg} if hdr_arg else {}
+                v = petl.fromdicts((x for x in list(petl.dicts(copy.deepcopy(case['table'])))), **kw)
+                lead, follow = iter(v), iter(v)
+                gl, gf = [], []
+                try:
+                    for _ in range(min(lag, len(rows))):
+                        gl.append(tuple(next(lead)))
+                    while True:
+                        moved = False
+                        for it_, g_ in ((lead, gl), (follow, gf)):
+                            try:
+                                g_.append(tuple(next(it_)))
+                                moved = True
+                            except StopIteration:
+                                pass
+                        if not moved:
+                            break
+                except StopIteration:
+                    pass
+                fresh = util.attempt_rows(lambda: v)
+                ctx.seen('fromdicts-generator:lagging-iterator')
+                for who, g_ in (('leader', gl), ('laggard', gf), ('fresh pass', fresh)):
+                    if isinstance(g_, util.Raised) or util.crows(g_) != exp:
+                        return {'kind': 'result-differs', 'op': 'fromdicts(generator)', 'at': '%s, lag %d, header %s' % (who, lag, 'given' if hdr_arg else 'sampled'),
+                                'expected': [tuple(hdr)] + rows, 'observed': g_ if not isinstance(g_, util.Raised) else g_.text}
         return None
     if kind == 'columns-roundtrip':
         cols = util.attempt(lambda: petl.columns(table))
